@@ -94,32 +94,32 @@ IsPrefixOf(u, w) == Len(u) <= Len(w) /\ \A i \in DOMAIN u : u[i] = w[i]
 
 (***************************************************************************)
 (* C01: a reduction sequence, read backwards, is a rightmost derivation of   *)
-(* the whole input.  Replay on a pure symbol stack -- no table consulted.    *)
+(* the whole inp.  Replay on a pure symbol stack -- no table consulted.    *)
 (* events: sequence of [e |-> "T", tok |-> name] (token fetched; "$" for end)*)
 (*                     [e |-> "R", rule |-> i]  (rule i of G, 2.. )          *)
 (* A fetched token becomes the look-ahead; it is shifted when the next       *)
 (* fetch happens.                                                            *)
 (***************************************************************************)
 RECURSIVE ReplayFrom(_, _, _, _, _)
-\* st: symbol stack, la: current look-ahead or "" (none yet), i: next event
-ReplayFrom(G, ev, i, st, la) ==
-  IF i > Len(ev) THEN [ok |-> TRUE, stack |-> st, la |-> la]
+\* st: symbol stack, lah: current look-ahead or "" (none yet), i: next event
+ReplayFrom(G, ev, i, st, lah) ==
+  IF i > Len(ev) THEN [ok |-> TRUE, stack |-> st, lah |-> lah]
   ELSE LET e == ev[i] IN
     IF e.e = "T"
-    THEN ReplayFrom(G, ev, i + 1, IF la = "" THEN st ELSE Append(st, la), e.tok)
+    THEN ReplayFrom(G, ev, i + 1, IF lah = "" THEN st ELSE Append(st, lah), e.tok)
     ELSE LET rhs == Rhs(G, e.rule) n == Len(rhs) IN
          IF e.rule \in NR(G) /\ e.rule # 1 /\ Len(st) >= n
             /\ SubSeq(st, Len(st) - n + 1, Len(st)) = rhs
-         THEN ReplayFrom(G, ev, i + 1, Append(SubSeq(st, 1, Len(st) - n), Lhs(G, e.rule)), la)
-         ELSE [ok |-> FALSE, stack |-> st, la |-> la, at |-> i]
+         THEN ReplayFrom(G, ev, i + 1, Append(SubSeq(st, 1, Len(st) - n), Lhs(G, e.rule)), lah)
+         ELSE [ok |-> FALSE, stack |-> st, lah |-> lah, at |-> i]
 Replay(G, ev) == ReplayFrom(G, ev, 1, <<>>, "")
 \* an accepting run is sound iff its replay ends with exactly the start symbol
-\* and look-ahead "$", and the tokens fetched are input \o <<"$">>
-SoundAccept(G, ev, input) ==
+\* and look-ahead "$", and the tokens fetched are inp \o <<"$">>
+SoundAccept(G, ev, inp) ==
   LET r == Replay(G, ev)
       fetched == SelectSeq(ev, LAMBDA e : e.e = "T")
   IN /\ r.ok
      /\ r.stack = <<StartSym(G)>>
-     /\ r.la = End
-     /\ [i \in DOMAIN fetched |-> fetched[i].tok] = input \o <<End>>
+     /\ r.lah = End
+     /\ [i \in DOMAIN fetched |-> fetched[i].tok] = inp \o <<End>>
 =============================================================================
